@@ -180,6 +180,16 @@ func (g *Gen) Bootstrap(e *eng.Engine, refresh func()) {
 			ex("batch", m)
 		}
 	}
+	// deterministic witness of F-C09a: a batch whose start date equals its end date
+	if len(g.V.ProjectList) > 0 {
+		p := g.V.ProjectList[0]
+		if c := g.V.Classes[p.ClassKey]; c != nil {
+			if iss := sortedKeys(g.V.Issuers[c.Key]); len(iss) > 0 {
+				d := time.Date(2021, 10, 1, 11, 4, 15, 0, time.UTC)
+				ex("batch-equal-dates", &basetypes.MsgCreateBatch{Issuer: iss[0], ProjectId: p.Id, Issuance: []*basetypes.BatchIssuance{{Recipient: A[0], TradableAmount: "1"}}, Metadata: "equal dates", StartDate: &d, EndDate: &d})
+			}
+		}
+	}
 	refresh()
 	// baskets
 	var basketFee sdk.Coins
